@@ -1634,9 +1634,12 @@ def cli_oracles(case, run, real):
             continue
         got = read_agp_file(run["files"][fn])
         want = [{"name": s["name"], "rows": [conv.strip_oids(r) for r in s["rows"]]} for s in scs]
-        if "all_haplotigs" in stem and len({s["name"] for s in scs}) < len(scs):
-            # open finding F21 (decided by C03's check, where it is listed): the merged all_haplotigs assembly can hold two scaffolds of one name,
-            # which no AGP/TPF reader can tell apart.  Here the file is compared row for row, in order, with same-named neighbours run together
+        if len({s["name"] for s in scs}) < len(scs):
+            # two scaffolds of one name in the assembly IN MEMORY: no AGP/TPF reader can tell them apart in the file.  Whether that may happen is
+            # the uniqueness question, decided in-process under its stated precondition (`oracle_names` / `consistent_tagging`; open findings
+            # F20 and, for the merged all_haplotigs assembly, F21 in C03's check) — e.g. a Contaminant tag on part of an input scaffold puts the
+            # cut-off piece and the unpainted remainder into the contaminants assembly under the one input name.  Here the file is compared
+            # row for row, in order, with same-named neighbours run together, so content and order are still decided
             def runs(lst):
                 out_ = []
                 for x in lst:
